@@ -319,6 +319,8 @@ def run(ctx):
         badn = [n for n in names if n in ("skip", "take", "step_by", "filter", "rev", "skip_while", "take_while", "filter_map", "nth", "last", "chain")]
         if "flat_map" in names and "self.labels" in txt and not badn:
             ctx.ok("C01-R4", "%s: flat_map over self.labels.iter(), no dropping adaptor" % fn.split("::")[-1], b.loc())
+        elif _label_loop_form(b, eb) and not badn:
+            ctx.ok("C01-R4", "%s: `for label in self.labels` loop that appends to the result unconditionally on every iteration" % fn.split("::")[-1], b.loc())
         else:
             ctx.fail("C01-R4", fn, "label pipeline", "labels are not mapped one-to-one (adaptors: %s)" % sorted(set(names)), b.loc())
         if inner:
@@ -537,6 +539,35 @@ def odd_lpf(ctx, p, site):
     else:
         ctx.ok("C01-R6", "T2 odd-LPF panic: unreachable for the 2-stream placeholder (widths %s); 3-stream LPF order is odd (voice-format fact)" % widths, site.loc())
 
+
+
+def _label_loop_form(b, eb):
+    """the loop form of `labels.iter().flat_map(..).collect()`: one loop whose iterator is a plain
+    traversal of self.labels; in it, an extend/push on the vector that is returned, guarded by
+    nothing but the loop's own `Some`"""
+    ret = None
+    for d in b.defs().get(0, []):
+        if d[1] != "term" and d[2]["rv"]["k"] == "use" and d[2]["rv"]["op"].get("k") in ("move", "copy") and not d[2]["rv"]["op"]["place"]["proj"]:
+            ret = d[2]["rv"]["op"]["place"]["local"]
+    if ret is None:
+        return False
+    loops = b.natural_loops()
+    okk = False
+    for bb, t in b.calls():
+        c = t["callee"]
+        nm = cm.callee_name(c) if c["k"] == "fndef" else ""
+        if not re.search(r"Vec::<T, A>::(push|extend_from_slice|append)$|Extend<.*>>::extend$", nm):
+            continue
+        if not any(bb in lb for h, lb in loops):
+            continue
+        rl = t["args"][0]["place"]["local"] if t["args"] and t["args"][0].get("k") in ("move", "copy") else None
+        base = [ditem["rv"]["place"]["local"] for dbb, didx, ditem in b.defs().get(rl, []) if didx != "term" and ditem["rv"]["k"] == "ref"] if rl is not None else []
+        if not base or base[0] != ret:
+            continue
+        gs = paths.guards(b, bb, eb)
+        if len(gs) == 1 and gs[0][0] == "some" and re.match(r"^<std::slice::Iter<'a, T> as std::iter::Iterator>::next\(self\.labels\)$", show(gs[0][1])):
+            okk = True
+    return okk
 
 
 # ---- R8: no 0/0 "out of nothing": float divisions by an integer count
